@@ -1,5 +1,6 @@
 (* C13/Properties.v — the property's clauses as theorems (statements only; proofs are in Proofs*.v). *)
-From Verif Require Import Common.Base C13.Model C13.Spec C13.Proofs1 C13.Proofs2 C13.Proofs3 C13.Proofs4 C13.Proofs5 C13.Proofs6 C13.Proofs7 C13.Proofs8 C13.Proofs9 C13.Proofs10 C13.Proofs11 C13.ProofsC C13.ProofsL C13.Checkers C13.Harness C13.Instances C13.Translated.
+From Verif Require Import Common.Base C13.Model C13.Spec C13.Proofs1 C13.Proofs2 C13.Proofs3 C13.Proofs4 C13.Proofs5 C13.Proofs6 C13.Proofs7 C13.Proofs8 C13.Proofs9 C13.Proofs10 C13.Proofs11 C13.ProofsC C13.ProofsL C13.Checkers C13.Harness C13.Instances C13.Translated C13.ValidateRules.
+From Verif Require Import Generated.C13ValidateGrid.
 From Verif Require Import Generated.C13Telemetry Generated.C13Levels.
 From Verif Require Import Generated.C13CfgSchema.
 From Coq Require Import String.
@@ -496,3 +497,27 @@ Print Assumptions checker_cv_equal_refl.
 Theorem encoder_output_has_unique_keys : forall v, x_wf v -> cv_wf (encode_x v).
 Proof. exact encode_x_wf. Qed.
 Print Assumptions encoder_output_has_unique_keys.
+
+(* ---- the built-in validation RULES (content of the nested Validate methods): each hand-written rule
+        gives the verdict of the real method at every point of its grid (T3b dump of the current tree) ---- *)
+Theorem validate_grid_backoff : agrees backoff_rule grid_backoff = true. Proof. exact validate_grid_backoff_l. Qed.
+Print Assumptions validate_grid_backoff.
+Theorem validate_grid_timeout : agrees timeout_rule grid_timeout = true. Proof. exact validate_grid_timeout_l. Qed.
+Print Assumptions validate_grid_timeout.
+Theorem validate_grid_queue : agrees queue_rule grid_queue = true. Proof. exact validate_grid_queue_l. Qed.
+Print Assumptions validate_grid_queue.
+Theorem validate_grid_batchcfg : agrees batchcfg_rule grid_batchcfg = true. Proof. exact validate_grid_batchcfg_l. Qed.
+Print Assumptions validate_grid_batchcfg.
+Theorem validate_grid_batcher : agrees batcher_rule grid_batcher = true. Proof. exact validate_grid_batcher_l. Qed.
+Print Assumptions validate_grid_batcher.
+Theorem validate_grid_grpcserver : agrees grpcserver_rule grid_grpcserver = true. Proof. exact validate_grid_grpcserver_l. Qed.
+Print Assumptions validate_grid_grpcserver.
+Theorem validate_grid_batchproc : agrees batchproc_rule grid_batchproc = true. Proof. exact validate_grid_batchproc_l. Qed.
+Print Assumptions validate_grid_batchproc.
+Theorem validate_grid_tls : agrees tls_rule grid_tls = true. Proof. exact validate_grid_tls_l. Qed.
+Print Assumptions validate_grid_tls.
+Theorem validate_grids_nontrivial :
+  forallb (fun g : list (list Z * Z) => existsb (fun r => Z.eqb (snd r) 1) g && existsb (fun r => Z.eqb (snd r) 0) g)
+          [grid_backoff; grid_timeout; grid_queue; grid_batchcfg; grid_batcher; grid_grpcserver; grid_batchproc; grid_tls] = true.
+Proof. exact validate_grids_nontrivial_l. Qed.
+Print Assumptions validate_grids_nontrivial.
